@@ -418,6 +418,8 @@ var fmtMinimalQ = []string{
 	`{ f(a: "\u007f") }`,                     // R12a \x7f
 	`{ f(a: "\u0000") }`,                     // R12a \x00
 	"{ f(a: \"\xff\") }",                     // R12a \xff (invalid UTF-8 kept raw by the lexer)
+	"{a(s:\"\t\xff\")}",                      // raw TAB is written as \t: FF after an escape is kept raw too (C12_string_value_illformed_roundtrip)
+	"{a(s:\"\x7f\xff\\n\xc3(\xe2\x82\")}",      // DEL -> \u007f, ill-formed bytes and truncated sequences after escapes
 	"{ f(a: \"\U000e0001\") }",               // R12a \U000e0001
 	`{ f(a: "\u0085") }`,                     // \u0085: fine
 	`query ($a: Int = 1 @x) { f }`,           // R12b
